@@ -195,9 +195,13 @@ func (c *CircuitBreaker) exec(s SideEffect) {
 	if s == nil {
 		return
 	}
+	// exec is called with the lock held; the goroutine below runs without it and must not read the breaker's state,
+	// which rendering c in the log message would do.
+	name := c.String()
+
 	go func() {
 		if err := s.Exec(); err != nil {
-			c.log.Error("%v side effect failure: %v", c, err)
+			c.log.Error("%v side effect failure: %v", name, err)
 		}
 	}()
 }
